@@ -516,9 +516,9 @@ class GeneratorSite(object):
             # equalize items with round-off-equal absolute value
             ii = abrow.argsort()
             delta = 1e-8 * abrow[ii[-1]]
-            for k in ii[1:]:
-                if abrow[k] - abrow[k - 1] < delta:
-                    abrow[k] = abrow[k - 1]
+            for kprev, k in zip(ii[:-1], ii[1:]):
+                if abrow[k] - abrow[kprev] < delta:
+                    abrow[k] = abrow[kprev]
             # find the smallest nonzero absolute element
             jnz = numpy.flatnonzero(abrow > cutoff)
             idx = jnz[abrow[jnz].argmin()]
